@@ -909,3 +909,134 @@ Theorem C15_filter_concrete :
     (length (t_reqs t) <= S (length L))%nat.
 Proof. exact concrete_referrers. Qed.
 Print Assumptions C15_filter_concrete.
+
+(* ---------- second extension round: every link form, without abstract net/url ---------- *)
+
+(* C15_exactly_once_concrete for a registry that chooses, per answer, any of the forms
+   </path?q> (0), <?q> (1), <http://host/path?q> (2), <//host/path?q> (3), <./last?q> (4..) -- fm i is the form of
+   the i-th answer -- read by net/url as modelled (resolve_c): no hypothesis about rendering or
+   resolution is left for any of them *)
+Theorem C15_exactly_once_concrete_forms :
+  forall (sch host : str) (hc : N) (ht : str),
+       host = hc :: ht ->
+       forallb host_char host = true ->
+       host_ok host = true ->
+       forall (P0 : str) (segs0 : list str),
+       clean_path P0 segs0 ->
+       forallb path_char P0 = true ->
+       forallb printable P0 = true ->
+       forall (L : list item) (cap : nat) (ds : nat -> decision) (trailer : nat -> str) 
+         (vis : item -> bool) (cu : cursor) (c : cfg),
+       cursor_ok cu ->
+       match cu with
+       | CLast => True
+       | CToken k s => Forall byte_ok k /\ Forall byte_ok s
+       end ->
+       (forall x : str, In x (map fst L) -> Forall byte_ok x) ->
+       (forall i : nat, all_vs (d_extra (ds i)) /\ query_ok (d_extra (ds i))) ->
+       (c_n c < 10 ^ 40)%Z ->
+       forallb printable host = true ->
+       forall (fm : nat -> nat) (dirs0 : list str) (lastB0 : str),
+       segs0 = dirs0 ++ [lastB0] ->
+       forallb path_char lastB0 = true ->
+       forall (last0 : list N) (fuel : nat),
+       c_kind c <> KReferrers ->
+       NoDup (map fst L) ->
+       (forall it : item, In it L -> fst it <> []) ->
+       Forall byte_ok last0 ->
+       (forall i : nat, (Z.of_N (d_doc_len (ds i)) <= eff_limit (c_limit c))%Z) ->
+       (length (after last0 L) < fuel)%nat ->
+       let t :=
+         loop
+           (reg_serve (c_kind c) cu (fun (_ : nat) (p : str) => p) vis L cap ds (render_f host fm lastB0)
+              trailer) (resolve_c sch host) (fun _ : nat => false) c fuel 0 0
+           {| u_path := P0; u_query := [] |} last0 in
+       t_out t = Done /\
+       concat (t_pages t) = filter vis (after last0 L) /\
+       (length (t_reqs t) <= S (length (after last0 L)))%nat.
+Proof. exact concrete_exactly_once_forms. Qed.
+Print Assumptions C15_exactly_once_concrete_forms.
+
+Theorem C15_filter_concrete_forms :
+  forall (sch host : str) (hc : N) (ht : str),
+       host = hc :: ht ->
+       forallb host_char host = true ->
+       host_ok host = true ->
+       forall (P0 : str) (segs0 : list str),
+       clean_path P0 segs0 ->
+       forallb path_char P0 = true ->
+       forallb printable P0 = true ->
+       forall (L : list item) (cap : nat) (ds : nat -> decision) (trailer : nat -> str) 
+         (vis : item -> bool) (cu : cursor) (c : cfg),
+       cursor_ok cu ->
+       match cu with
+       | CLast => True
+       | CToken k s => Forall byte_ok k /\ Forall byte_ok s
+       end ->
+       (forall x : str, In x (map fst L) -> Forall byte_ok x) ->
+       (forall i : nat, all_vs (d_extra (ds i)) /\ query_ok (d_extra (ds i))) ->
+       (c_n c < 10 ^ 40)%Z ->
+       forallb printable host = true ->
+       forall (fm : nat -> nat) (dirs0 : list str) (lastB0 : str),
+       segs0 = dirs0 ++ [lastB0] ->
+       forallb path_char lastB0 = true ->
+       forall fuel : nat,
+       c_kind c = KReferrers ->
+       NoDup (map fst L) ->
+       (forall it : item, In it L -> fst it <> []) ->
+       Forall byte_ok (c_at c) ->
+       (forall i : nat, (Z.of_N (d_doc_len (ds i)) <= eff_limit (c_limit c))%Z) ->
+       (forall i : nat, qget k_at (d_extra (ds i)) = None) ->
+       (length L < fuel)%nat ->
+       let t :=
+         loop
+           (reg_serve KReferrers cu (fun (_ : nat) (p : str) => p) vis L cap ds (render_f host fm lastB0)
+              trailer) (resolve_c sch host) (fun _ : nat => false) c fuel 0 0
+           {| u_path := P0; u_query := referrers_query (c_at c) |} [] in
+       t_out t = Done /\
+       concat (t_pages t) = filter_referrers (filter vis L) (c_at c) /\
+       (length (t_reqs t) <= S (length L))%nat.
+Proof. exact concrete_referrers_forms. Qed.
+Print Assumptions C15_filter_concrete_forms.
+
+(* forms 1, 2, 3, 4 in turn, opaque cursor, a hidden entry, page size 7 *)
+Example C15_example_concrete_forms :
+  let t := loop (reg_serve KTags (CToken (b "token") (b "p;")) (fun _ p => p) ex_vis ex_L 1 ex_ds
+                           (render_f (b "reg.test") (fun i => S i) (b "list")) (fun _ => b "; rel=""next"""))
+                (resolve_c (b "http") (b "reg.test")) (fun _ => false) (mkCfg KTags 7 0 []) 6 0 0 (mkUrl exs_path []) [] in
+  t_out t = Done /\ map (map fst) (t_pages t) = [[b "a"]; [b "b"]; []; [b "d"]] /\
+  map u_path (t_reqs t) = [exs_path; exs_path; exs_path; exs_path].
+Proof. vm_compute. repeat split. Qed.
+
+(* the typed reading (n as a number) of the raw request the client sends IS the request of the
+   association-list model -- the same list, not only the same lookups *)
+Theorem C15_request_query_exact :
+  forall c p raw last, Forall byte_ok last -> (c_n c < 10 ^ 40)%Z ->
+    typed_query (request_query c raw last) = u_query (mk_request c (mkUrl p (typed_query raw)) last).
+Proof. exact request_query_exact. Qed.
+Print Assumptions C15_request_query_exact.
+
+(* all histories, for ANY registry on association lists that is fed the typed reading of the raw
+   requests (serve_typed; it may echo every parameter of a request into its links): the page loop
+   on strings and the page loop on association lists deliver the same pages with the same outcome,
+   and the raw requests read exactly as the model's requests.  The former hypothesis "answers
+   indistinguishable requests alike" is gone. *)
+Theorem C15_string_loop_exact :
+  forall (sch host : str) (serve : nat -> url -> response) (resolve : url -> str -> option url)
+         (cb_fail : nat -> bool) (c : cfg) (Inv : sreq -> Prop),
+    (c_n c < 10 ^ 40)%Z ->
+    (forall i rs t,
+       Inv rs -> parse_link (rs_link (serve i (typed_req rs))) = LTarget t ->
+       match resolve_ref (mkS sch host (sr_path rs) (sr_query rs)) t, resolve (typed_req rs) t with
+       | ROk u, Some u' => s_path u <> [] /\ u' = mkUrl (s_path u) (typed_query (s_query u)) /\
+                           Inv (mkSR (s_path u) (request_query c (s_query u) []))
+       | RErr, None => True
+       | _, _ => False
+       end) ->
+    forall fuel i k p raw last,
+      Inv (mkSR p (request_query c raw last)) -> Forall byte_ok last ->
+      exists ts, loop_s sch host (serve_typed serve) cb_fail c fuel i k p raw last = Some ts /\
+                 let t := loop serve resolve cb_fail c fuel i k (mkUrl p (typed_query raw)) last in
+                 st_pages ts = t_pages t /\ st_out ts = t_out t /\ map typed_req (st_reqs ts) = t_reqs t.
+Proof. exact loop_s_exact. Qed.
+Print Assumptions C15_string_loop_exact.
